@@ -5,7 +5,7 @@ CONSTANTS
   ObfsMin = 3
   ObfsMax = 6
   MaxRead = 3
-  DeadlineSource = "private"
+  DeadlineSource = "shared"
   MarkMode = "release"
   MaxW = 2
   Cases <- MCCases
